@@ -28,7 +28,7 @@ DATA = {
 EDGES = np.linspace(0.0, 1.0, 6)
 SOFF_EDGES = np.linspace(0.0, 1.0, 3)
 DELTA = 0.1
-NGRID = 31
+NGRID = 20
 
 
 def base(spec):
@@ -46,8 +46,11 @@ def src_ra(s, k):
 def make_source_list(spec, s):
     from skyllh.core.source_model import PointLikeSource
     K = spec['K']
-    return [PointLikeSource(name='S%d_%d' % (s, k), ra=src_ra(s, k), dec=np.deg2rad(-20.0 + 40.0 * k + 5.0 * s),
-                            weight=1.0 + 0.5 * k) for k in range(K)]
+    return [PointLikeSource(name='S%d' % k, ra=src_ra(s, k), dec=src_dec(s, k), weight=1.0 + 0.5 * k) for k in range(K)]
+
+
+def src_dec(s, k):
+    return np.deg2rad(-20.0 + 40.0 * k + 5.0 * s)
 
 
 def sig_grid(spec, g):
@@ -82,7 +85,10 @@ def world_man(spec, d, s, k, g):
 
 def world_bkg(spec, d, s):
     from scipy.interpolate import RegularGridInterpolator as RGI
-    return RGI((EDGES,), bkg_grid(), method='linear', bounds_error=False, fill_value=0)(DATA[d][:, None])
+    x = DATA[d]
+    if spec['fields'] != 'none':
+        x = np.mod(x + 0.5 * src_ra(s, 0), 1.0)       # the event-level static data field 'xs'
+    return RGI((EDGES,), bkg_grid(), method='linear', bounds_error=False, fill_value=0)(x[:, None])
 
 
 # ---- the real object graph ----------------------------------------------------------------------
@@ -153,6 +159,13 @@ def build(spec, d, s):
             x = tdm.get_data('xpre' if f == 'all' else 'x')
             return np.mod(np.take(x, evt_idxs) + np.take(ra, src_idxs), 1.0)
         tdm.add_data_field('z', calc_z, is_srcevt_data=True)
+
+        # an event-level static data field (stored in the events array itself) that depends on the source; it is the
+        # axis of the background PDF
+        def calc_xs(tdm, shg_mgr, pmm):
+            x = tdm.get_data('xpre' if f == 'all' else 'x')
+            return np.mod(x + 0.5 * shg_mgr.source_list[0].ra, 1.0)
+        tdm.add_data_field('xs', calc_xs)
     if f == 'all':
         def calc_soff(tdm, shg_mgr, pmm):
             return np.array([src.ra for src in shg_mgr.source_list])
@@ -187,7 +200,7 @@ def build(spec, d, s):
     sigset = SignalMultiDimGridPDFSet(pmm=pmm, param_set=ParameterSet([Parameter('gamma', b + 1.0, float(gv[0]), float(gv[-1]))]),
                                       param_grid_set=grid, gridparams_pdfs=pdfs, interpol_method_cls=icls, cfg=cfg)
     G.sigset = sigset
-    bkg = BackgroundMultiDimGridPDF(pmm=pmm, axis_binnings=[BinningDefinition('x', EDGES)],
+    bkg = BackgroundMultiDimGridPDF(pmm=pmm, axis_binnings=[BinningDefinition('x' if f == 'none' else 'xs', EDGES)],
                                     pdf_grid_data=bkg_grid(), cache_pd_values=spec['cache'], cfg=cfg)
     bkg._pdf = CRGI((EDGES,), bkg_grid(), method='linear', bounds_error=False, fill_value=0)
     G.bkg = bkg
@@ -232,7 +245,8 @@ def build(spec, d, s):
     G.events = {}
     G.d = d
     G.s = s
-    tdm.initialize_trial(shg_mgr=shg_mgr, pmm=pmm, events=events_of(G, d), n_events=N_TOTAL)
+    G.events = events_of(G, d)
+    tdm.initialize_trial(shg_mgr=shg_mgr, pmm=pmm, events=G.events, n_events=N_TOTAL)
     single = fx.make_single_llhratio(cfg, pmm, shg_mgr, tdm, outer)
     G.single = single
     multi = fx.make_multi_llhratio(cfg, pmm, sdw, dswf, [single])
@@ -249,25 +263,56 @@ def events_of(G, d):
 
 
 def op_init(G, d):
+    """new trial on a newly created events array"""
     G.d = d
-    G.tdm.initialize_trial(shg_mgr=G.shg_mgr, pmm=G.pmm, events=events_of(G, d), n_events=N_TOTAL)
+    G.events = events_of(G, d)
+    G.tdm.initialize_trial(shg_mgr=G.shg_mgr, pmm=G.pmm, events=G.events, n_events=N_TOTAL)
     G.multi.initialize_for_new_trial()
 
 
-def op_change_source(G, s):
-    """Analysis.change_shg_mgr as far as this graph is concerned, followed (as its documentation demands) by a
-    new trial on the same data.  The new sources re-use the source *objects* (the pmm is keyed by them) and get
-    new positions, as a sky scan does."""
+def op_reinit_same(G):
+    """new trial on the *same* events array instance (it carries the data fields the previous trial stored in it)"""
+    G.tdm.initialize_trial(shg_mgr=G.shg_mgr, pmm=G.pmm, events=G.events, n_events=N_TOTAL)
+    G.multi.initialize_for_new_trial()
+
+
+def op_mutate_events(G, d):
+    """the same events array instance, edited in place to hold data set d (new instance if the size differs)"""
+    src = I3_DATA[d] if G.kind == 'i3' else {'x': DATA[d]}
+    if len(G.events) != len(next(iter(src.values()))):
+        return op_init(G, d)
+    G.d = d
+    for name, v in src.items():
+        G.events[name] = v.copy()
+    op_reinit_same(G)
+
+
+def op_change_source(G, s, how='new', events='new'):
+    """Analysis.change_shg_mgr as far as this graph is concerned, followed (as its documentation demands) by a new trial
+    on the same data.  how: 'mutate'  same manager instance, the source objects get new positions in place;
+                            'replace' same manager instance, its sources are replaced by new source objects
+                                      (what Analysis.change_source does);
+                            'new'     a newly created SourceHypoGroupManager with new source objects.
+    events: 'new' a fresh copy of the events, 'same' the same events array instance again."""
     G.s = s
-    for k, src in enumerate(G.sources):
-        src.ra = src_ra(s, k)
-        src.dec = np.deg2rad(-20.0 + 40.0 * k + 5.0 * s)
-    shg_mgr = fx.make_shg_mgr(G.cfg, G.sources)
-    G.shg_mgr = shg_mgr
+    if how == 'mutate':
+        for k, src in enumerate(G.sources):
+            src.ra = src_ra(s, k)
+            src.dec = src_dec(s, k)
+    else:
+        G.sources = make_source_list(dict(K=len(G.sources)), s)
+        if how == 'replace':
+            for k, src in enumerate(G.sources):
+                G.shg_mgr.shg_list[0].source_list[k] = src
+        else:
+            G.shg_mgr = fx.make_shg_mgr(G.cfg, G.sources)
     if G.services is not None:
-        G.services[0].change_shg_mgr(shg_mgr)
-    G.multi.change_shg_mgr(shg_mgr)
-    op_init(G, G.d)
+        G.services[0].change_shg_mgr(G.shg_mgr)
+    G.multi.change_shg_mgr(G.shg_mgr)
+    if events == 'same':
+        op_reinit_same(G)
+    else:
+        op_init(G, G.d)
 
 
 def fitparams(G, ns, xs):
@@ -291,7 +336,15 @@ def op_evaluate(G, ns, xs):
     """returns dict(llh, grads, ratio blocks, grad blocks, interp_hit, pd_miss, bkg_miss)"""
     reset_counters(G)
     fp = fitparams(G, ns, xs)
+    if G.spec.get('reuse_fp'):
+        # the caller's fit parameter array is one instance that is overwritten for every evaluation (as minimizers do)
+        if getattr(G, 'fp', None) is None:
+            G.fp = fp
+        else:
+            G.fp[:] = fp
+        fp = G.fp
     (llh, grads) = G.multi.evaluate(fp)
+    (llh, grads) = (float(llh), np.array(grads, dtype=np.float64))
     if G.kind == 'i3':
         return dict(llh=float(llh), grads=[float(v) for v in grads], ratio=[], grad=[], other_zero=True,
                     interp_hit=None, pd_miss=None, bkg_miss=None)
@@ -396,8 +449,9 @@ def field_calc(T, gamma):
 # ---- PDFRatioProduct around the real splined I3 energy PDF ratio ---------------------------------------
 # SplinedI3EnergySigSetOverBkgPDFRatio keeps (state id, interpolation parameters, ratio, grads) and hands out the
 # cached ratio array and a *view into* the cached gradient array.  The other factor is a parameter-free ratio that
-# hands out its stored per-trial array itself (llh_fixtures.StubPDFRatio(share=True)).  spec = dict(graph='i3', K=1,
-# order='first'|'second' (position of the energy ratio in the product), interp='linear'|'parabola')
+# hands out its stored per-trial array itself (llh_fixtures.StubPDFRatio(share=True)).  spec = dict(graph='i3', K=1|2
+# (K=2: one global gamma parameter per source), order='first'|'second' (position of the energy ratio in the product),
+# interp='linear'|'parabola')
 
 def _i3_events(seed, n):
     rng = np.random.RandomState(seed)
@@ -406,6 +460,9 @@ def _i3_events(seed, n):
 
 
 I3_DATA = {0: _i3_events(100, 6), 1: _i3_events(101, 6), 2: _i3_events(102, 9)}
+
+
+_I3_TEMPLATES = {}
 
 
 def build_i3(spec, d, s):
@@ -419,43 +476,60 @@ def build_i3(spec, d, s):
     from skyllh.i3.backgroundpdf import DataBackgroundI3EnergyPDF
     from skyllh.i3.pdfratio import SplinedI3EnergySigSetOverBkgPDFRatio
     from skyllh.i3.signalpdf import SignalI3EnergyPDFSet
+    from skyllh.core.pdfratio import SourceWeightedPDFRatio
     G = Graph()
     G.kind = 'i3'
     G.spec = spec
-    G.split = False
-    G.services = None
+    K = spec['K']
+    G.split = K > 1
     cfg = fx.make_cfg()
     G.cfg = cfg
-    G.sources = make_source_list(dict(K=1), s)
+    G.sources = make_source_list(dict(K=K), s)
     G.shg_mgr = fx.make_shg_mgr(cfg, G.sources)
     gam = Parameter('gamma', 2.0, 1.0, 4.0)
-    G.pmm = fx.make_pmm(G.sources, params=[gam], ns_init=2.0, ns_max=30.0, ns_min=0.0)
-    rng = np.random.RandomState(7)
-    n = 3000
-    lte = rng.uniform(1.5, 7.0, n)
-    mc = DataFieldRecordArray({'true_energy': 10 ** lte,
-                               'log_energy': np.clip(lte - 0.3 + rng.normal(0, 0.4, n), 1.05, 6.95),
-                               'sin_dec': rng.uniform(-1, 1, n), 'mcweight': 10 ** lte * rng.uniform(0.5, 1.5, n)}, copy=True)
-    ne = 600
-    exp = DataFieldRecordArray({'log_energy': np.clip(rng.normal(3.2, 0.9, ne), 1.05, 6.95),
-                                'sin_dec': rng.uniform(-1, 1, ne)}, copy=True)
-    sb = BinningDefinition('sin_dec', np.linspace(-1, 1, 5))
-    eb = BinningDefinition('log_energy', np.linspace(1, 7, 7))
-    flux = SteadyPointlikeFFM(Phi0=1, energy_profile=PowerLawEnergyFluxProfile(E0=1e3, gamma=2, cfg=cfg), cfg=cfg)
-    sigset = SignalI3EnergyPDFSet(cfg=cfg, data_mc=mc, log10_energy_binning=eb, sin_dec_binning=sb, fluxmodel=flux,
-                                  param_grid_set=gam.as_linear_grid(delta=0.1), ncpu=1)
-    bkg = DataBackgroundI3EnergyPDF(cfg=cfg, data_exp=exp, log10_energy_binning=eb, sin_dec_binning=sb)
-    icls = Linear1DGridManifoldInterpolationMethod if spec['interp'] == 'linear' \
-        else Parabola1DGridManifoldInterpolationMethod
-    G.energy = SplinedI3EnergySigSetOverBkgPDFRatio(cfg=cfg, sig_pdf_set=sigset, bkg_pdf=bkg, interpolmethod_cls=icls, ncpu=1)
-    G.stub = fx.StubPDFRatio(cfg, STUB_TABLE[:1], share=True)
+    if not G.split:
+        G.pmm = fx.make_pmm(G.sources, params=[gam], ns_init=2.0, ns_max=30.0, ns_min=0.0)
+    else:
+        G.pmm = fx.make_pmm(G.sources, params=[(Parameter('gamma%d' % k, 2.0, 1.0, 4.0), [G.sources[k]], ['gamma'])
+                                               for k in range(K)], ns_init=2.0, ns_max=30.0, ns_min=0.0)
+    # the spline construction (33 histogrammed energy PDFs, 31 splines) is the expensive part: a pristine template per
+    # interpolation method is built once, never evaluated, and every object graph gets its own deep copy of it
+    key = spec['interp']
+    if key not in _I3_TEMPLATES:
+        rng = np.random.RandomState(7)
+        n = 3000
+        lte = rng.uniform(1.5, 7.0, n)
+        mc = DataFieldRecordArray({'true_energy': 10 ** lte,
+                                   'log_energy': np.clip(lte - 0.3 + rng.normal(0, 0.4, n), 1.05, 6.95),
+                                   'sin_dec': rng.uniform(-1, 1, n), 'mcweight': 10 ** lte * rng.uniform(0.5, 1.5, n)}, copy=True)
+        ne = 600
+        exp = DataFieldRecordArray({'log_energy': np.clip(rng.normal(3.2, 0.9, ne), 1.05, 6.95),
+                                    'sin_dec': rng.uniform(-1, 1, ne)}, copy=True)
+        sb = BinningDefinition('sin_dec', np.linspace(-1, 1, 5))
+        eb = BinningDefinition('log_energy', np.linspace(1, 7, 7))
+        tcfg = fx.make_cfg()
+        flux = SteadyPointlikeFFM(Phi0=1, energy_profile=PowerLawEnergyFluxProfile(E0=1e3, gamma=2, cfg=tcfg), cfg=tcfg)
+        sigset = SignalI3EnergyPDFSet(cfg=tcfg, data_mc=mc, log10_energy_binning=eb, sin_dec_binning=sb, fluxmodel=flux,
+                                      param_grid_set=gam.as_linear_grid(delta=0.1), ncpu=1)
+        bkg = DataBackgroundI3EnergyPDF(cfg=tcfg, data_exp=exp, log10_energy_binning=eb, sin_dec_binning=sb)
+        icls = Linear1DGridManifoldInterpolationMethod if spec['interp'] == 'linear' \
+            else Parabola1DGridManifoldInterpolationMethod
+        _I3_TEMPLATES[key] = SplinedI3EnergySigSetOverBkgPDFRatio(cfg=tcfg, sig_pdf_set=sigset, bkg_pdf=bkg,
+                                                                  interpolmethod_cls=icls, ncpu=1)
+    import copy
+    G.energy = copy.deepcopy(_I3_TEMPLATES[key])
+    G.stub = fx.StubPDFRatio(cfg, STUB_TABLE[:K], share=True)
     G.product = G.energy * G.stub if spec['order'] == 'first' else G.stub * G.energy
+    Y = np.array([[1.0 + 0.25 * k for k in range(K)]])
+    G.services = fx.make_weight_services(G.shg_mgr, Y)
+    G.outer = SourceWeightedPDFRatio(dataset_idx=0, src_detsigyield_weights_service=G.services[1], pdfratio=G.product, cfg=cfg)
     G.tdm = TrialDataManager()
     G.d = d
     G.s = s
-    G.tdm.initialize_trial(shg_mgr=G.shg_mgr, pmm=G.pmm, events=events_of(G, d), n_events=N_TOTAL)
-    G.single = fx.make_single_llhratio(cfg, G.pmm, G.shg_mgr, G.tdm, G.product)
-    G.multi = G.single
+    G.events = events_of(G, d)
+    G.tdm.initialize_trial(shg_mgr=G.shg_mgr, pmm=G.pmm, events=G.events, n_events=N_TOTAL)
+    G.single = fx.make_single_llhratio(cfg, G.pmm, G.shg_mgr, G.tdm, G.outer)
+    G.multi = fx.make_multi_llhratio(cfg, G.pmm, G.services[1], G.services[2], [G.single])
     G.multi.initialize_for_new_trial()
     return G
 
@@ -494,6 +568,8 @@ def cache_snapshot(G):
         snap['energy._cache.ratio'] = _b(c['ratio'])
         snap['energy._cache.grads'] = _b(c['grads'])
         snap['energy._cache.params'] = _b(c['interpol_params_recarray'])
+        snap['outer._cache_R_i'] = _b(G.outer._cache_R_i)
+        snap['outer._cache_R_ik'] = _b(G.outer._cache_R_ik)
         im = G.energy._interpolmethod
     else:
         im = G.sigset._interpol_method
